@@ -98,9 +98,11 @@ MNameExpr(found, err) == [M0("MacroNameExpr") EXCEPT !.n = IF found THEN 1 ELSE 
 \* ---------------------------------------------------------------- state helpers
 NoCk == [set |-> FALSE, pos |-> 0, ts |-> 0, ml |-> 0, nt |-> 0, nl |-> 0, ns |-> 0]
 
-InitState(bom) ==
-  [pos |-> bom, ts |-> bom, modes |-> <<MDefault>>, ck |-> NoCk, pend |-> <<0>>, nest |-> 0,
+\* sep: the macro_sep feature of the build (a field, so that two builds can be run side by side)
+InitStateF(bom, sepOn) ==
+  [sep |-> sepOn, pos |-> bom, ts |-> bom, modes |-> <<MDefault>>, ck |-> NoCk, pend |-> <<0>>, nest |-> 0,
    toks |-> <<>>, lines |-> <<bom>>, errs |-> <<>>, fault |-> "", la |-> 0, ops |-> <<>>, nlit |-> 0, ss |-> 0]
+InitState(bom) == InitStateF(bom, MacroSepOn)
 
 Fault(S, f) == [S EXCEPT !.fault = IF @ = "" THEN f ELSE @]
 EmitErr(S, k) == [S EXCEPT !.errs = Append(@, [k |-> k, c |-> S.pos])]
@@ -357,7 +359,7 @@ StatOptsTypes == {"KwmAbort", "KwmDisplay", "KwmGoto", "KwmInput", "KwmSymdel", 
 \* dispatch_macro_call_or_stat: emit the keyword token (and MacroSep) and populate the mode stack
 DispatchCallOrStat(S0, kw, allowLabel) ==
   LET tm == Top(S0).k
-      sep == MacroSepOn /\ NeedsMacroSep(LastDef(S0), kw)
+      sep == S0.sep /\ NeedsMacroSep(LastDef(S0), kw)
              /\ tm \notin {"StringExpr", "MacroCallArgOrValue", "MacroCallValue"}
       S1 == IF sep THEN EmitD(S0, "MacroSep") ELSE S0
       S == Emit(S1, IF kw \in {"KwmStr", "KwmNrStr"} THEN "HIDDEN" ELSE "DEFAULT", kw)
@@ -863,7 +865,7 @@ DispatchMaybeArgsOrLabel(S, T, checkLabel) ==
            li1 == LastDefIdx(S1.toks, Len(S1.toks))
            pi == IF li1 > 0 THEN LastDefIdx(S1.toks, li1 - 1) ELSE 0
            prevTy == IF pi > 0 THEN S1.toks[pi].ty ELSE "None"
-           S2 == IF MacroSepOn /\ li1 > 0 /\ NeedsMacroSep(prevTy, S1.toks[li1].ty)
+           S2 == IF S.sep /\ li1 > 0 /\ NeedsMacroSep(prevTy, S1.toks[li1].ty)
                    THEN InsertTok(S1, li1, Tk("MacroSep", "DEFAULT", S1.toks[li1].c))
                    ELSE S1
        IN Pop(ClearCk(Emit(Adv(StartTok(S2), 1), "HIDDEN", "COLON")))
